@@ -22,9 +22,9 @@ LEVELS = {
          "Runtime monitor; termination is restated as bounded progress: a lexicographic variant must strictly decrease on every observed accepted operation (finite runs cannot decide 'every path is finite')."),
  "C07": ("fault_enumeration", "lock-step differential vs JSON-rebuilt game / NativeBackend / fresh OS process at every wait point; Go race detector on a shared backend", "4.7",
          "Fault = loss of everything not in the JSON (restart / backend hop), injected at every wait point of every explored history; followers must agree with the in-memory game after every operation. The shared-backend workload runs under the Go race detector."),
- "C08": ("exploration", "position oracle after every successful Next() + armed deal-in watch + closed-seat invariant + engine hand-off; subset oracle for Next() under a seat-toggling goroutine", "4.8",
+ "C08": ("exploration", "position oracle after every successful Next() + armed deal-in watch + hand-by-hand waiting watch + closed-seat invariant + engine hand-off; subset oracle for Next() under a seat-toggling goroutine", "4.8",
          "Runtime monitor over random seat histories and targeted join-between scenarios."),
- "C09": ("exploration", "tournament world ledger at quiescent points (read-only hook on the waiting queue); concurrent world under the Go race detector", "4.9",
+ "C09": ("exploration", "tournament world ledger at quiescent points (read-only hook on the waiting queue), also with fault injection at the host callbacks and re-entries before the bust is reported; concurrent world under the Go race detector", "4.9",
          "Conservation monitor: every live player in exactly one place, counters equal real numbers, refusals without effect; checked after every completed step of random tournament histories."),
  "C10": ("exploration", "brute-force best admissible selection with the independent evaluator", "4.10",
          "Reference-model monitor on every seat and street of generated hands plus direct draws through the engine's publication path."),
@@ -34,7 +34,7 @@ LEVELS = {
          "Runtime monitor with amount fuzzing on every offered bet/raise."),
  "C13": ("exploration", "forced-bet oracle on a systematic boundary grid + random configurations", "4.13",
          "Runtime monitor evaluated on the first state after the blind phase (so a skipped phase is seen)."),
- "C14": ("exploration", "deck-ledger invariant after every operation; shuffle is a permutation", "4.14",
+ "C14": ("exploration", "deck-ledger invariant after every operation (also on the state a refused step leaves behind); shuffle is a permutation", "4.14",
          "Invariant monitor on pinned decks; ShuffleCards checked directly on random decks."),
  "C15": ("exploration", "taint scan of the whole redacted JSON + equality with the stated redaction", "4.15",
          "Runtime monitor over every viewer of every reachable state of generated hands."),
@@ -44,9 +44,9 @@ LEVELS = {
          "Runtime monitor over random seat histories; a panic is a violation."),
  "C18": ("exploration", "seat ledger under recover(); porcupine linearizability of recorded concurrent histories; hopper clients (counting argument); Go race detector", "4.18",
          "Sequential ledger monitor, offline linearizability check (porcupine) of concurrent Join/Leave/Count histories recorded at the client boundary, and the race detector on the same workload at several GOMAXPROCS."),
- "C19": ("exploration", "capacity monitor inside requestTableFn/assignPlayersFn/SyncState results; concurrent world under the Go race detector", "4.19",
+ "C19": ("exploration", "capacity monitor inside requestTableFn/assignPlayersFn/SyncState results, judged on what is asked, also with fault injection at the host callbacks; concurrent world under the Go race detector", "4.19",
          "Runtime monitor inside the tournament world callbacks over a settings grid."),
- "C20": ("exploration", "sweep-to-fixpoint driver with bounded sweep count under random and adversarial sync orders; break returns everyone", "4.20",
+ "C20": ("exploration", "sweep-to-fixpoint driver with bounded sweep count under random and adversarial sync orders, also after injected host-callback faults have stopped; break returns everyone and never empties the only table", "4.20",
          "Convergence restated as bounded progress: from every reached world state, sweeps must reach a quiet sweep within tables+8 sweeps."),
 }
 
